@@ -29,6 +29,7 @@ LEVEL = 'exploration'
 ALL_EXHAUSTIVE = False
 TOKENS = ['/', '//', '.', '..', '%2e', '%2e%2e', '%2f', '%00', '?', '#', 'a.txt', 'sub', 'b.txt', 'index.html', '.hidden', 'link',
           'secret.txt', 'public-evil', 'x.txt', 'public', 'public.txt', 'nonexistent']
+OCTET_TOKENS = ['/', '.', '..', 'secret.txt', 'a.txt', 'sub', '\xff', '\xc0\xaf', '.\xff.', '.\xc0.', '\xe9']
 RULE = ('paths = "/" + concatenation of tokens from %r; every path of <= 4 tokens (quick) / <= 5 tokens (thorough) is '
         'enumerated, longer ones (<= 12 tokens) are drawn by Hypothesis; --min-compression-length in {0, 20, 10^6}. '
         'Non-trivial: the path contains ".." and its target exists outside the root, or the answer is 200; distinct by path.' % (TOKENS,))
@@ -127,10 +128,11 @@ def evaluate(c: Dict[str, Any]) -> Tuple[List[Any], Dict[str, Any]]:
     warm_up(mcl)
     root = os.path.realpath(os.path.join(top, 'public'))
     wo_query = path.split('?', 1)[0]
-    target = os.path.realpath(root + wo_query)
+    # the request target is a sequence of octets (the case spells them as latin-1 characters); the file system sees those octets
+    target = os.fsdecode(os.path.realpath(os.fsencode(root) + wo_query.encode('latin-1')))
     inside = target == root or target.startswith(root + os.sep)
     r = fetch(path, mcl)
-    spelled = 'dotdot' if '..' in wo_query.split('/') else 'encoded' if any(t.startswith('%') for t in c['tokens']) else 'plain'
+    spelled = 'non-utf8-octets' if any(ord(ch) > 127 for ch in path) else 'dotdot' if '..' in wo_query.split('/') else 'encoded' if any(t.startswith('%') for t in c['tokens']) else 'plain'
     feat = {'inside': inside, 'target_exists': os.path.exists(target), 'spelling': spelled}
     info = {'inside': inside, 'code': r.get('code'), 'outside_existing': (not inside) and os.path.isfile(target) and '..' in c['tokens']}
     out: List[Any] = []
@@ -187,6 +189,8 @@ def shards(tier: str) -> List[Dict[str, Any]]:
     for i in range(4 if q else 16):
         out.append({'name': 'sampled-%d' % i, 'kind': 'sampled', 'examples': 700 if q else 12000})
     out.append({'name': 'symlink-family', 'kind': 'symlink'})
+    for i in range(len(OCTET_TOKENS)):
+        out.append({'name': 'octets-%d' % i, 'kind': 'octets', 'first': i})
     return out
 
 
@@ -221,6 +225,20 @@ def run_shard(spec: Dict[str, Any], seed: int, acc: Any) -> None:
                     for (cl, ft, ob, ex) in vs:
                         acc.fail(c, cl, ft, ob, ex)
             acc.exhaustive_parts.append('symlink family: {link, link/., sub/deep} x 0..4 parent steps x 9 names (+ one level below directories)')
+            return
+        if spec['kind'] == 'octets':
+            # octets that are not UTF-8, alone and inside / next to dot-segments: whatever the server decodes, drops or replaces
+            # on the way from the containment test to open() must not change which file is meant
+            for n in range(1, 5):
+                for toks in itertools.product([OCTET_TOKENS[spec['first']]], *([OCTET_TOKENS] * (n - 1))):
+                    if not any(ord(ch) > 127 for t in toks for ch in t):
+                        continue
+                    c = {'tokens': list(toks), 'mcl': 20, 'with_query': n <= 2}
+                    vs, info = evaluate(c)
+                    acc.case(c, True, labels=('non-utf8-octets', 'inside' if info['inside'] else 'outside', 'code:%s' % info['code']), key=''.join(toks))
+                    for (cl, ft, ob, ex) in vs:
+                        acc.fail(c, cl, ft, ob, ex)
+            acc.exhaustive_parts.append('all paths of <= 4 tokens over %r starting with %r and containing an octet >= 0x80' % (OCTET_TOKENS, OCTET_TOKENS[spec['first']]))
             return
         if spec['kind'] == 'exh':
             for n in spec['lens']:
